@@ -10,7 +10,8 @@ What is new compared with c2lean.Translator:
     member of *p's struct (it then denotes that member);
   * `double` is an abstract linearly ordered field K; floating literals become exact rationals, DBL_MAX becomes the ambient
     parameter `dblMax`, calls of libm `sqrt`/`pow` become the ambient parameters `sqrt`/`pow` (abstract functions);
-    `uint64_t` is ℕ (no wrap-around: `a - b` produces the obligation `b ≤ a`);
+    `uint64_t` is ℕ (`a - b` produces the obligation `b ≤ a`; sums of counts are assumed not to wrap; a PRODUCT of
+    two unsigned values is reduced mod 2^64 as in C);
   * every function f is emitted twice, from one walk over the AST, in C evaluation order:
         f      : the value (the updated pointees after the C return value), with Lean's total `/`;
         f_dom  : a decidable Prop that says the C call is *defined and does not abort* on that path:
@@ -372,6 +373,10 @@ class StructTranslator:
                     pre.append(("obl", "%s ≠ 0" % eb))
                 if op == "-" and r == "nat":
                     pre.append(("obl", "%s ≤ %s" % (eb, ea)))
+                if op == "*" and r == "nat":
+                    # a product of two 64-bit counts is not covered by the standing assumption on the counts (sums of
+                    # counts stay below 2^64, see notes/C17.md): C's wrap-around is modelled as it is
+                    return "((%s * %s) %% 18446744073709551616)" % (ea, eb)
                 return "(%s %s %s)" % (ea, op, eb)
             raise Untranslatable("binary operator %s at representation %s in a value position" % (op, r))
         if k == "ConditionalOperator":
